@@ -31,18 +31,18 @@ R3(x) == <<InRat(x[1]), InRat(x[2]), InRat(x[3])>>
 O3(x) == <<Obs(x[1]), Obs(x[2]), Obs(x[3])>>
 ForceOf(sh, o, f) ==
     IF "p" \in DOMAIN f THEN [F |-> R3(f.F), p |-> f.p, q |-> f.q]
-    ELSE LET G == Fn([k \in 1..Len(f.G) |-> O3(f.G[k])])
+    ELSE LET G == Ev([k \in 1..Len(f.G) |-> O3(f.G[k])])
          IN [F |-> R3(f.F), G |-> G,
-             B |-> Fn([k \in 1..Len(f.G) |-> IF k <= 3 THEN Abs3(G[k]) ELSE BoundAt(sh, o, k-1, 0)])]
+             B |-> Ev([k \in 1..Len(f.G) |-> IF k <= 3 THEN Abs3(G[k]) ELSE BoundAt(sh, o, k-1, 0)])]
 Mean(s) == RDiv(RSum([q \in 1..Len(s) |-> Obs(s[q])]), RFromInt(Len(s)))
 LoadsOf(e, sh, o) ==
-    LET base == [forces |-> Fn([n \in 1..Len(e.forces) |-> ForceOf(sh, o, e.forces[n])]),
-                 forcesInc |-> Fn([n \in 1..Len(e.forcesInc) |-> ForceOf(sh, o, e.forcesInc[n])]),
+    LET base == [forces |-> Ev([n \in 1..Len(e.forces) |-> ForceOf(sh, o, e.forces[n])]),
+                 forcesInc |-> Ev([n \in 1..Len(e.forcesInc) |-> ForceOf(sh, o, e.forcesInc[n])]),
                  P |-> InRat(e.P), Pinc |-> InRat(e.Pinc), T |-> InRat(e.T), Tinc |-> InRat(e.Tinc)]
     IN IF Len(e.ring) = 0 THEN base
        ELSE [forces |-> base.forces, forcesInc |-> base.forcesInc, P |-> base.P, Pinc |-> base.Pinc, T |-> base.T,
-             Tinc |-> base.Tinc, ring |-> Fn([k \in 1..Len(e.ring) |-> Mean(e.ring[k])])]
-KukOf(e) == Fn([a \in 1..Len(e.kuk) |-> <<Obs(e.kuk[a][1]), Obs(e.kuk[a][2]), Obs(e.kuk[a][3])>>])
+             Tinc |-> base.Tinc, ring |-> Ev([k \in 1..Len(e.ring) |-> Mean(e.ring[k])])]
+KukOf(e) == Ev([a \in 1..Len(e.kuk) |-> <<Obs(e.kuk[a][1]), Obs(e.kuk[a][2]), Obs(e.kuk[a][3])>>])
 
 BadFext(e, v) ==
     IF Len(v) # Len(e.obs) THEN {-2}
@@ -52,11 +52,11 @@ JudgeFext(e, o, sh, ld, kuk, inc, lit) ==
     THEN <<IF LoadRaises(sh, ld, inc) = e.raised THEN "ok" ELSE "fail", {LoadRaises(sh, ld, inc), e.raised}>>
     ELSE LET b0 == BadFext(e, lit)
          IN IF b0 = {} THEN <<"ok", {}>>
-            ELSE LET hits == { d \in LoadDeviations : BadFext(e, Fn(FExtCode(o, sh, ld, kuk, inc, {d}))) = {} }
+            ELSE LET hits == { d \in LoadDeviations : BadFext(e, Ev(FExtCode(o, sh, ld, kuk, inc, {d}))) = {} }
                  IN IF hits # {} THEN <<"kf:" \o (CHOOSE d \in hits : TRUE), b0>> ELSE <<"fail", b0>>
 
-RowsOf(m) == Fn([a \in 1..Len(m) |-> Fn([b \in 1..Len(m[a]) |-> Obs(m[a][b])])])
-VecOf(s) == Fn([a \in 1..Len(s) |-> Obs(s[a])])
+RowsOf(m) == Ev([a \in 1..Len(m) |-> Ev([b \in 1..Len(m[a]) |-> Obs(m[a][b])])])
+VecOf(s) == Ev([a \in 1..Len(s) |-> Obs(s[a])])
 JudgeStatic(e) ==
     LET K == RowsOf(e.kuu)  c == VecOf(e.cu)  f == VecOf(e.f)
         b0 == StaticBadRows(K, c, f, TolStatic, {})
@@ -82,7 +82,7 @@ TStep == /\ l <= Len(Trace)
                        /\ lastInc' = inc
                        /\ phase' = "built" /\ nreb' = 1 /\ UNCHANGED given
                        /\ out' = IF LoadRaises(sh, loads', inc) = "no"
-                                 THEN Fn(FExtCode(obj', sh, loads', kukm', inc, {})) ELSE <<>>
+                                 THEN Ev(FExtCode(obj', sh, loads', kukm', inc, {})) ELSE <<>>
                        /\ LET j == JudgeFext(e, obj', sh, loads', kukm', inc, out')
                           IN Verdict(e.id, j[1], j[2])
 TSpec == TInit /\ [][TStep]_tvars
